@@ -7,6 +7,7 @@ CONSTANTS
   MaxQ = 3
   BugInitEmpty = FALSE
   BugStaleInit = FALSE
+  BugRelinkDrop = FALSE
   WSet <- MCWSet
   Gen = TRUE
 CHECK_DEADLOCK FALSE
